@@ -7,6 +7,7 @@ import HidVerif.Gen.Funcs
 import HidVerif.Hid.Fold
 import HidVerif.Hid.Lexer
 import HidVerif.Hid.ParseRender
+import HidVerif.Hid.TypecheckStmt
 open HidVerif HidVerif.Sphinx
 
 def bytesToLines (b : ByteArray) : List (List Char) := Id.run do
@@ -130,6 +131,26 @@ partial def parseBatch (ls : List (List Char)) (cur : Case) (acc : Array Case) :
     else if s == "@end" then parseBatch rest {} (acc.push cur)
     else parseBatch rest cur acc
 
+/-- run `f` on every `#case` of a code-point text file (format of `frontend.model_run`) -/
+def runTexts (file : String) (f : List (List Nat) → String) : IO UInt32 := do
+  let txt ← IO.FS.readFile file
+  let mut cur : Option (String × List (List Nat)) := none
+  let flush (c : Option (String × List (List Nat))) : IO Unit :=
+    match c with
+    | none => pure ()
+    | some (id, ls) => IO.println s!"#case {id}\n{f ls.reverse}"
+  for l in txt.splitOn "\n" do
+    if l.startsWith "#case " then
+      flush cur
+      cur := some ((l.drop 6).toString, [])
+    else if l == "#end" then
+      flush cur; cur := none
+    else match cur with
+      | some (id, ls) => cur := some (id, ((l.splitOn " ").filterMap (fun t => t.toNat?)) :: ls)
+      | none => pure ()
+  flush cur
+  return 0
+
 def main (argv : List String) : IO UInt32 := do
   match argv with
   | ["batch", file] =>
@@ -144,6 +165,8 @@ def main (argv : List String) : IO UInt32 := do
     let c : Case := { id := "vm", asm := bytesToLines b, args := args.map (fun a => a.toUTF8.data.toList.map (·.toNat)) }
     IO.println (runCase c)
     return 0
+  | ["tc", file] => runTexts file (Hid.TC.frontEnd false)
+  | ["tclint", file] => runTexts file (Hid.TC.frontEnd true)
   | ["parse", file] =>
     let txt ← IO.FS.readFile file
     let mut cur : Option (String × List (List Nat)) := none
